@@ -965,7 +965,9 @@ Fixpoint resolve_loop (fuel : nat) (walkFuel : nat) : M pres :=
   resolve_loop fuel' walkFuel
   end.
 
-(** fuel: linear in the table length (see Props/C12.v) *)
+(** fuel: linear in the size of the input (see Props/C12.v).  The passes after the first one walk the WHOLE tree,
+    also the objects of the tables loaded earlier, so the bound has to count those too: [parseAML] uses
+    [parse_fuel (length of the table + number of pool slots)] - the pool holds at most 4 objects per byte of input. *)
 Definition parse_fuel (len : nat) : nat := 64 + 8 * len.
 
 (** init + the passes; [true] = nil error, [false] = errParsingAML *)
@@ -995,7 +997,7 @@ Definition init_state (tree : T) (earlier : list (list N)) (handle : N) (data : 
   with_r (with_pkgEndStack s [n]) (fst (setPkgEnd r n)).
 
 Definition parseAML (tree : T) (earlier : list (list N)) (handle : N) (data : list N) : outcome (bool * pstate) :=
-  parseAML_body (parse_fuel (length data)) (init_state tree earlier handle data).
+  parseAML_body (parse_fuel (length data + length (t_pool tree))) (init_state tree earlier handle data).
 
 (** the table image the harness builds: SDT header (signature DSDT, length, revision 2) + payload *)
 Fixpoint le_bytes (cnt : nat) (v : N) : list N :=
